@@ -30,6 +30,8 @@ import (
 	"fmt"
 	"math/rand"
 	"os"
+	"runtime"
+	"runtime/debug"
 	"sort"
 	"strings"
 
@@ -201,6 +203,10 @@ func main() {
 		only    = flag.String("ops", "", "comma separated subset of operations")
 	)
 	flag.Parse()
+	debug.SetGCPercent(-1)
+	// one P: with several, a goroutine that migrates misses the per-P caches of sync.Pool and the like,
+	// which makes block counts of correct pooling code vary from call to call
+	runtime.GOMAXPROCS(1)
 	rec := ev.New("C20", *config, fmt.Sprintf("count-%d", *shard), *seed)
 	rec.SetProgress(*out + ".about")
 	collect()
@@ -234,6 +240,7 @@ func main() {
 	}
 	rnd := rand.New(rand.NewSource(*seed*1000 + int64(*shard)))
 	var refVec, cur []uint32
+	var noise int64
 	for _, op := range ops {
 		if *only != "" && !strings.Contains(","+*only+",", ","+op+",") {
 			continue
@@ -316,15 +323,40 @@ func main() {
 			continue
 		}
 		nviol := 0
-		for _, c := range cases {
-			rec.About(map[string]interface{}{"op": "ctcount", "ct_op": op, "secret_b": ev.Hex(c.a), "secret_b2": ev.Hex(c.b)})
+		measure := func(a, b []byte, dst []uint32) []uint32 {
 			run(op, r1, r2, pub) // previous call used the reference secret
 			reset()
-			run(op, c.a, c.b, pub)
-			cur = snapshot(cur)
+			run(op, a, b, pub)
+			return snapshot(dst)
+		}
+		for ci, c := range cases {
+			if ci%1000 == 0 {
+				// the collector is off during measurements (a collection empties sync.Pools, and a
+				// pool miss in correct code is not the secret's doing); collect here instead
+				runtime.GC()
+			}
+			rec.About(map[string]interface{}{"op": "ctcount", "ct_op": op, "secret_b": ev.Hex(c.a), "secret_b2": ev.Hex(c.b)})
+			cur = measure(c.a, c.b, cur)
 			rec.Eval("count/" + op + "/" + c.kind)
 			rec.Nontrivial([]byte(*config), []byte(op), c.a, c.b)
 			if !equalVec(refVec, cur) && nviol < 3 {
+				// a difference counts only if it is the secret's: the reference vector must be reproducible
+				// now, and the secret must produce the same differing vector three more times
+				stable := equalVec(refVec, measure(r1, r2, nil))
+				same := 0
+				for i := 0; i < 3; i++ {
+					if equalVec(cur, measure(c.a, c.b, nil)) {
+						same++
+					}
+				}
+				stable = stable && equalVec(refVec, measure(r1, r2, nil))
+				if !stable || same < 3 {
+					// the same secret gives different vectors: not the secret's doing; counted, and the
+					// run is inconclusive only if this is frequent (see the end of main)
+					rec.Class("count-monitor/differences-that-did-not-reproduce", 1)
+					noise++
+					continue
+				}
 				nviol++
 				d := diff(refVec, cur)
 				rec.Violate("block-counts", fmt.Sprintf("%s: basic-block execution counts depend on the secret (%s secret): %s", op, c.kind, strings.Join(d, "; ")),
@@ -332,6 +364,9 @@ func main() {
 						"secret_b": ev.Hex(c.a), "secret_b2": ev.Hex(c.b), "public": ev.Hex(pub), "blocks": d})
 			}
 		}
+	}
+	if noise > 0 && noise*100 > rec.Evaluations {
+		rec.Inconc(fmt.Sprintf("%d of %d block-count vectors differed without reproducing: the executions are not deterministic enough to judge", noise, rec.Evaluations))
 	}
 	if err := rec.Write(*out); err != nil {
 		fmt.Fprintln(os.Stderr, err)
